@@ -14,8 +14,12 @@ pub struct QuoteCase {
 }
 
 const BUILTINS: &[&str] = &[
-    ".", ":", "[", "alias", "bg", "break", "cd", "chdir", "command", "continue", "echo", "eval", "exec", "exit", "export", "false", "fc", "fg", "getopts", "hash", "jobs", "kill", "local", "pwd", "printf", "read", "readonly", "return", "set", "shift", "test", "times", "trap", "true", "type", "ulimit", "umask", "unalias", "unset", "wait", "if", "then", "else", "elif", "fi", "do", "done", "case", "esac", "while", "until", "for", "in", "let", "source", "declare", "typeset", "function", "time", "select", "coproc", "history", "help", "logout", "mapfile", "popd", "pushd", "dirs", "shopt", "suspend", "bind", "builtin", "caller", "compgen", "complete", "compopt", "disown", "enable", "readarray",
+    ".", ":", "[", "alias", "bg", "break", "cd", "chdir", "command", "continue", "echo", "eval", "exec", "exit", "export", "false", "fc", "fg", "getopts", "hash", "jobs", "kill", "local", "pwd", "printf", "read", "readonly", "return", "set", "shift", "test", "times", "trap", "true", "type", "ulimit", "umask", "unalias", "unset", "wait", "let", "source", "declare", "typeset", "history", "help", "logout", "mapfile", "popd", "pushd", "dirs", "shopt", "suspend", "bind", "builtin", "caller", "compgen", "complete", "compopt", "disown", "enable", "readarray",
 ];
+
+/// Words the shell's grammar reserves in command position (POSIX, plus the ones bash
+/// adds); a program may be called that, and then only quoting makes the shell run it.
+const RESERVED: &[&str] = &["if", "then", "else", "elif", "fi", "do", "done", "case", "esac", "while", "until", "for", "in", "function", "time", "select", "coproc"];
 
 fn word_strategy() -> impl Strategy<Value = String> {
     let ch = prop_oneof![
@@ -79,12 +83,16 @@ fn glob_bait(word: &str) -> Vec<String> {
 }
 
 fn prog_strategy() -> impl Strategy<Value = String> {
+    prop_oneof![12 => plain_prog_strategy(), 1 => prop::sample::select(RESERVED.to_vec()).prop_map(|s| s.to_string())]
+}
+
+fn plain_prog_strategy() -> impl Strategy<Value = String> {
     word_strategy().prop_map(|w| {
         let mut s: String = w.chars().filter(|c| *c != '/').collect();
         while s.len() > 200 {
             s.pop();
         }
-        if s.is_empty() || s == "." || s == ".." || BUILTINS.contains(&s.as_str()) {
+        if s.is_empty() || s == "." || s == ".." || BUILTINS.contains(&s.as_str()) || RESERVED.contains(&s.as_str()) {
             s.push_str("_x");
         }
         s
@@ -288,7 +296,7 @@ fn replay(ctx: &Ctx, _engine: &str, case: &Value) -> CaseResult {
 pub static C19: PropDef = PropDef {
     id: "C19",
     level: "exploration",
-    rule: "proptest generates a program name (non-empty, no slash, not a shell builtin or reserved word) and 0..11 arguments over Unicode without NUL, weighted to the empty string, blanks, tab, newline, both quotes, $ ` \\ * ? [ ] ~ # = ! & | ; < > ( ) { }, leading dashes, control and non-ASCII characters; complete glob patterns ([..], *, ?) made of otherwise harmless characters; 1 stage (Exec) or 2..4 stages (Pipeline). For every word that would be a glob pattern, files it would match are placed in the directory of evaluation. The Debug text / to_cmdline_lossy is evaluated by a real shell (`sh <script>`, = dash; thorough also `bash --posix <script>`) with PATH pointing at a scratch directory in which each program name is a hard link of the helper that prints its argv in hex after copying its stdin; the recorded vectors, in pipeline order, must equal the originals. Non-trivial = some word needs quoting or is empty; distinct = distinct cases among those.",
+    rule: "proptest generates a program name (non-empty, no slash, not a shell builtin; the shell's reserved words are included as program names) and 0..11 arguments over Unicode without NUL, weighted to the empty string, blanks, tab, newline, both quotes, $ ` \\ * ? [ ] ~ # = ! & | ; < > ( ) { }, leading dashes, control and non-ASCII characters; complete glob patterns ([..], *, ?) made of otherwise harmless characters; 1 stage (Exec) or 2..4 stages (Pipeline). For every word that would be a glob pattern, files it would match are placed in the directory of evaluation. The Debug text / to_cmdline_lossy is evaluated by a real shell (`sh <script>`, = dash; thorough also `bash --posix <script>`) with PATH pointing at a scratch directory in which each program name is a hard link of the helper that prints its argv in hex after copying its stdin; the recorded vectors, in pipeline order, must equal the originals. Non-trivial = some word needs quoting or is empty; distinct = distinct cases among those.",
     assumptions: &["dash (and bash --posix in thorough) stand for `a POSIX shell`", "environment rendering is out of scope (env left unset)"],
     engines: "real",
     workers: |_| 16,
